@@ -94,7 +94,7 @@ def run_cfg(cfg, rec):
 
 
 def explore(tier, seed):
-    cfgs = s1.configs(tier, ro_values=(True, False)) + s1.nd_configs(tier) + s1.long_configs(tier) + s1.bign_configs(tier)
+    cfgs = s1.configs(tier, ro_values=(True, False)) + s1.nd_configs(tier) + s1.long_configs(tier) + s1.bign_configs(tier) + s1.vlong_configs(tier)
     rec = core.pmap(run_cfg, cfgs, seed, progress="C11")
     rec.vac("skipped_sprt_finiteN_not_random_order", sum(1 for _ in []))
     return rec
